@@ -89,6 +89,13 @@ fn main()
         }
         if i % 3 == 0 { if let Some((r, a)) = tuples_line(&cs, 2, shots / 4, seed, "stabilizer") { out.case(&r, &a); } }
     }
+    // structured Clifford circuits of fragment F (several X-carrying generator rows on the measured qubit)
+    for _ in 0..(ncirc / 2).max(8)
+    {
+        let ct = gen_parity_circuit(&mut rng, false, false);
+        let seed = rng.next();
+        for repr in ["stabilizer", "vector"].iter() { if let Some((r, a)) = hist_line(&ct, shots, seed, repr) { out.case(&r, &a); } }
+    }
     // witnesses of the known defects (request kind prefixed with `w:<finding>`)
     let wit: Vec<(&str, &str, CircuitText)> = vec![
         ("D2-peek-correlated", "vector", lit(1, 2, &["gate 1 0 H", "peek 0 0 Z", "peek 0 1 Z"])),
